@@ -1010,6 +1010,12 @@ class Function(Ring):
             # array, e.g. a scratch buffer that is filled differently before every use)
             return cls(x.copy())
 
+        elif isinstance(x, (list, tuple)):
+            # a constant given as a (nested) list of numbers, e.g. y[1, ::2] = [5., 6.]:
+            # the array NumPy would make of it (the reverse sweep knows arrays, not lists)
+            a = numpy.asarray(x)
+            return cls(a if a.dtype != object else x)
+
         else:
             return cls(x)
 
